@@ -88,6 +88,10 @@ Lemma tie_htm_match dis cover sorter tri n2 n2dec n1 n1dec rads k :
     else do m <- matcher_init tri n2 n2dec; matcher_match dis cover sorter m n1 n1dec rads k.
 Proof. unfold htm_match, src_htm_match_rejects. cases_lia. Qed.
 
+(* ---- read_pairs: only the empty file (a match without pairs) bypasses the record reader *)
+Lemma tie_empty_file size : 0 <= size -> (src_read_pairs_shortcut size = true <-> size = 0).
+Proof. unfold src_read_pairs_shortcut. lia. Qed.
+
 (* ---- the pair file: one row "i1 i2 d12" per pair, read back with the matching dtype *)
 Import Coq.Strings.String.
 Definition expected_pair_format : string := ("%ld %ld %.16g" ++ String (Ascii.ascii_of_nat 10) EmptyString)%string.
